@@ -408,6 +408,15 @@ def judge_device(module, arming, inp, plan):
         elif not e1.fired:
             if o1.end not in ('halt', 'eoc') or 'after' not in printed(e1.events):
                 bad.append(('spurious-error', obs_of(o1)))
+    if not bad and arming == 'goto0':
+        # the handler gives up with ON ERROR GOTO 0: a device failure (in the
+        # program, or of the handler's own PRINT) ends the run as DEVICE_ERROR
+        if any(f[2] in ('fail', 'missing') for f in e1.fired):
+            if o1.end != 'trap' or o1.trap != cat.DEV:
+                bad.append(('failing-device-not-DEVICE_ERROR', obs_of(o1)))
+        elif not e1.fired:
+            if o1.end not in ('halt', 'eoc') or 'after' not in printed(e1.events):
+                bad.append(('spurious-error', obs_of(o1)))
     seen = []
     for b in bad:
         if b not in seen:
@@ -640,6 +649,114 @@ def judge_boundary(m, module, strict_expected=None, cont_horizon=3000):
     return bad, info, f
 
 
+def _kbd_stop(cpu, env, f, ref, armed, what):
+    """after the machine was driven on with a pending interrupt request:
+    no handler armed => stopped by the keyboard-interrupt trap in state `ref`"""
+    if armed:
+        if cpu.halted and getattr(cpu.halt_reason, 'name', None) not in \
+                ('TRAP', 'INSTRUCTION', 'END_OF_CODE'):
+            return [('undefined-halt', f'{what}: {cpu.halt_reason}')]
+        return []
+    lt = getattr(cpu.last_trap, 'name', None)
+    if lt != cat.KBD:
+        return [('interrupt-lost', f'{what}: last_trap={lt}')]
+    if not cpu.halted or getattr(cpu.halt_reason, 'name', None) != 'TRAP':
+        return [('not-halted-by-trap',
+                 f'{what}: halted={cpu.halted} reason={getattr(cpu.halt_reason, "name", None)}')]
+    post = snapshot(f, env)
+    if post != ref:
+        ch = [n for n, a, b in zip(('pc', 'stack', 'memory', 'device-trace'), ref, post) if a != b]
+        return [('executed-further', f'{what}: ' + '+'.join(ch) + ' changed')]
+    return []
+
+
+def _guarded(fn, bad, info, what):
+    """run fn(); host exceptions become violations -> True if fn completed"""
+    try:
+        with impl.quiet(), impl.time_limit(RUN_LIMIT):
+            fn()
+        return True
+    except impl.Exhausted:
+        bad.append(('executed-further', f'{what}: the input device was consulted'))
+    except impl.Timeout:
+        bad.append(('undefined-halt', f'{what}: run() did not end'))
+    except KeyboardInterrupt:
+        raise
+    except BaseException as e:
+        bad.append(('host-exception', f'{what}: exc:' + type(e).__name__))
+        info['where'] = impl._where(e.__traceback__)
+    return False
+
+
+def judge_run_entry(m, module):
+    """m at an instruction boundary (reached with tick()).  Fork, deliver the
+    interrupt request, continue with the machine's own run() loop: the request
+    is pending when run() is entered (k = 0: before the program starts)."""
+    f = impl.fork_machine(m)
+    cpu = f.cpu
+    env = cpu.devices['terminal'].impl
+    armed = is_armed(cpu)
+    ref = snapshot(f, env)
+    info = {'armed': armed, 'pc': cpu.pc, 'schedule': 'tick x k, interrupt, run()'}
+    bad = []
+    cpu.signal_handler(signal.SIGINT, None)
+    if _guarded(cpu.run, bad, info, 'run() entered with a pending request'):
+        bad.extend(_kbd_stop(cpu, env, f, ref, armed, 'run() entered with a pending request'))
+    return bad, info
+
+
+def judge_breakpoint_and_step(prev, module, p, ref, step):
+    """prev: undisturbed fork one instruction before the boundary (pc p, state
+    `ref`) under test.
+    step False: a breakpoint predicate stops run() at the boundary, the request
+                arrives while stopped, run() continues
+    step True:  run(step_over=True) is in progress and the request arrives
+                between the two instructions (delivered from a predicate that
+                never stops the machine - breakpoint predicates are evaluated by
+                run() exactly at the instruction boundaries)"""
+    cpu = prev.cpu
+    env = cpu.devices['terminal'].impl
+    bad = []
+    if not step:
+        what = 'stopped at a breakpoint, request, run()'
+        info = {'pc': p, 'schedule': what}
+        bp = lambda c: c.pc == p
+        cpu.add_breakpoint(bp)
+        box = {}
+        if not _guarded(lambda: box.setdefault('r', cpu.run()), bad, info, what):
+            return bad, info
+        cpu.del_breakpoint(bp)
+        if box['r'] is not False or cpu.halted or snapshot(prev, env) != ref:
+            # the harness expects the predicate to stop the run at the boundary
+            bad.append(('harness-breakpoint-differs', f'run() to the breakpoint at {p} and tick() disagree'))
+            return bad, info
+        armed = is_armed(cpu)
+        info['armed'] = armed
+        cpu.signal_handler(signal.SIGINT, None)
+        if _guarded(cpu.run, bad, info, what):
+            bad.extend(_kbd_stop(cpu, env, prev, ref, armed, what))
+        return bad, info
+    what = 'request between two instructions of run(step_over=True)'
+    info = {'pc': p, 'schedule': what}
+    box = {}
+
+    def hook(c):
+        if 'done' not in box:
+            box['done'] = True
+            box['armed'] = is_armed(c)
+            box['at'] = c.pc
+            c.signal_handler(signal.SIGINT, None)
+        return False
+    cpu.add_breakpoint(hook)
+    if _guarded(lambda: cpu.run(step_over=True), bad, info, what):
+        if box.get('at') != p:
+            bad.append(('harness-breakpoint-differs', f'predicate first evaluated at {box.get("at")}, not {p}'))
+        else:
+            info['armed'] = box['armed']
+            bad.extend(_kbd_stop(cpu, env, prev, ref, box['armed'], what))
+    return bad, info
+
+
 def run_to_boundary(module, inputs, k):
     env = impl.Env({'input': list(inputs)})
     m = impl.new_machine(module, env)
@@ -649,7 +766,7 @@ def run_to_boundary(module, inputs, k):
     return m
 
 
-def interrupts_item(src, inputs, o, g):
+def interrupts_item(src, inputs, o, g, variants=True):
     """all boundaries of one run -> (bad list [(k, div, obs, info)], counters)"""
     r = impl.compile_text(src, o, g, limit=COMPILE_LIMIT, want_listing=False)
     if not r.ok:
@@ -661,7 +778,8 @@ def interrupts_item(src, inputs, o, g):
     n = len(mod.code)
     states = set()
     cnt = {'boundaries': 0, 'strict': 0, 'armed': 0, 'fork_checked': 0, 'ticks': 0,
-           'cont_ticks': 0, 'master_end': None, 'hostexc_master': None}
+           'cont_ticks': 0, 'master_end': None, 'hostexc_master': None,
+           'run_entry': 0, 'breakpoint': 0, 'step_over': 0}
     bad = []
     k = 0
     while not cpu.halted and cpu.pc < n and k < 1500:
@@ -673,6 +791,12 @@ def interrupts_item(src, inputs, o, g):
         states.add(hash(canon_machine(f)))
         for div, obs in b:
             bad.append((k, div, obs, info))
+        # the same request, pending when the machine's own run() loop is entered
+        b, info_r = judge_run_entry(m, mod)
+        cnt['run_entry'] += 1
+        for div, obs in b:
+            bad.append((k, div, obs, dict(info_r, variant='run-entry')))
+        prevs = [impl.fork_machine(m) for _ in range(2)] if variants else []
         # fork fidelity: an undisturbed fork ticks to the same state as the master
         f2 = impl.fork_machine(m)
         try:
@@ -691,6 +815,16 @@ def interrupts_item(src, inputs, o, g):
             bad.append((k, 'harness-fork-differs', 'fork and master disagree after one tick', info))
         cnt['fork_checked'] += 1
         k += 1
+        if variants and not cpu.halted and cpu.pc < n:
+            # boundary k (just reached by the master): stop there with a breakpoint /
+            # arrive there inside run(step_over=True); both start one instruction before
+            ref = snapshot(m, env)
+            for step, prev in zip((False, True), prevs):
+                b, info_v = judge_breakpoint_and_step(prev, mod, cpu.pc, ref, step)
+                cnt['step_over' if step else 'breakpoint'] += 1
+                for div, obs in b:
+                    bad.append((k, div, obs, dict(info_v, variant='step-over' if step else 'breakpoint',
+                                                  armed=info_v.get('armed', False))))
     cnt['ticks'] = k
     cnt['master_end'] = ('hostexc' if cnt['hostexc_master'] else 'halted' if cpu.halted
                          else ('eoc' if cpu.pc >= n else 'long'))
@@ -759,7 +893,8 @@ def interrupts_chunk(chunk):
     st = {'evaluations': 0, 'runs': 0, 'ticks': 0, 'outcomes': set(), 'nontrivial': 0,
           'interrupts_cases': 0, 'states': 0, 'transitions': 0, 'boundaries': 0,
           'boundaries_strict': 0, 'boundaries_armed': 0, 'fork_fidelity_checks': 0,
-          'device_call_interrupts': 0, 'max_ticks_of_a_program': 0, 'master_hostexc': 0}
+          'device_call_interrupts': 0, 'master_hostexc': 0,
+          'run_entry_schedules': 0, 'breakpoint_schedules': 0, 'step_over_schedules': 0}
     for prog, arming, o, g in chunk:
         src = cat.arm_source(prog['src'], arming)
         # the handler mode in effect: the prefix, else the program's own
@@ -776,7 +911,13 @@ def interrupts_chunk(chunk):
         st['transitions'] += cnt['ticks'] + cnt['boundaries'] + cnt['fork_checked'] + cnt['cont_ticks']
         st['ticks'] += cnt['ticks'] + cnt['boundaries'] + cnt['fork_checked'] + cnt['cont_ticks']
         st['runs'] += 1 + cnt['boundaries']
-        st['max_ticks_of_a_program'] = 0
+        extra = cnt['run_entry'] + cnt['breakpoint'] + cnt['step_over']
+        st['run_entry_schedules'] += cnt['run_entry']
+        st['breakpoint_schedules'] += cnt['breakpoint']
+        st['step_over_schedules'] += cnt['step_over']
+        st['evaluations'] += extra
+        st['nontrivial'] += extra
+        st['runs'] += extra
         st['outcomes'].add(('interrupts', prog['name'], arming, cnt['master_end']))
         if cnt['hostexc_master']:
             st['master_hostexc'] += 1
@@ -785,10 +926,12 @@ def interrupts_chunk(chunk):
         for k, div, obs, info in bad:
             feat = {'family': 'interrupts', 'divergence': div, 'observed': obs,
                     'program': prog['name'], 'arming': mode, 'prefix': arming,
-                    'handler_armed': bool(info['armed']),
+                    'handler_armed': bool(info.get('armed')),
+                    'schedule': info.get('variant', 'tick'),
                     'debug': 'g' if g else 'nog', 'opt': f'O{o}'}
             viol.append((feat, {'family': 'interrupts', 'src': src, 'opt': o, 'dbg': g,
-                                'inputs': prog['inputs'], 'boundary': k, 'arming': arming},
+                                'inputs': prog['inputs'], 'boundary': k, 'arming': arming,
+                                'schedule': info.get('variant', 'tick')},
                          'last_trap KEYBOARD_INTERRUPT, halted by TRAP, pc/stack/memory/device '
                          'trace unchanged (no handler armed); no host exception (armed)',
                          impl.jsonable(info), k * 10 + len(src)))
@@ -877,14 +1020,15 @@ def run(chk):
         progs = cat.device_programs()
         bound = 1 if quick else 2
         items = []
+        dev_armings = cat.ARMINGS + (['goto0'] if quick else cat.HANDLER_MODES)
         for p in progs:
-            for arming in cat.ARMINGS:
+            for arming in dev_armings:
                 for o, g in CFG4:
                     items.append((p, arming, o, g))
         fams['devices'] = {'programs': len(progs), 'deviation_bound': bound,
                            'deviations': ['fail (DeviceError)', 'missing method', 'boundary value'],
                            'boundary_values': {k: [t for t, _ in v] for k, v in denv.BOUNDARY.items()},
-                           'arming_modes': cat.ARMINGS, 'configs': [cfg_name(*c) for c in CFG4]}
+                           'arming_modes': dev_armings, 'configs': [cfg_name(*c) for c in CFG4]}
         for viol, st in chk.pmap(devices_chunk, items, extra=(bound, True), chunk=1 if not quick else 4):
             chk.add_violations(viol)
             chk.merge_stats(st)
@@ -998,7 +1142,16 @@ def replay(rec):
             shutil.rmtree(tmp, ignore_errors=True)
         print('observed:', describe(out))
     elif fam == 'interrupts':
-        if 'boundary' in case:
+        if 'boundary' in case and case.get('schedule', 'tick') != 'tick':
+            k = case['boundary']
+            print(f'interrupt request at instruction boundary {k}, schedule: {case["schedule"]}')
+            _, bad_all, cnt, _ = interrupts_item(src, case['inputs'], o, g)
+            bad = [(d, ob) for kk, d, ob, info in bad_all
+                   if kk == k and info.get('variant', 'tick') == case['schedule']]
+            for kk, d, ob, info in bad_all:
+                if kk == k and info.get('variant', 'tick') == case['schedule']:
+                    print('info:', info)
+        elif 'boundary' in case:
             k = case['boundary']
             m = run_to_boundary(mod, case['inputs'], k)
             print(f'interrupt request at instruction boundary {k} (pc={m.cpu.pc}, '
